@@ -230,8 +230,34 @@ func runC24(c *Ctx) {
 				if !ok || call.Call.StaticCallee() == nil || call.Call.StaticCallee().String() != "math/rand.NewSource" {
 					continue
 				}
-				n++
-				ok2 := ssau.DependsOn(call.Call.Args[0], func(x ssa.Value) bool { return methodCallNamed(x, "Hash") || methodCallNamed(x, "HashWithAux") })
+				fromHash := func(v ssa.Value) bool {
+					return ssau.DependsOn(v, func(x ssa.Value) bool { return methodCallNamed(x, "Hash") || methodCallNamed(x, "HashWithAux") })
+				}
+				ok2 := fromHash(call.Call.Args[0])
+				sites := 1
+				if !ok2 {
+					// the generator is built in a helper from one of its parameters: every caller must pass block data
+					for pi, prm := range f.Params {
+						if !ssau.DependsOn(call.Call.Args[0], func(x ssa.Value) bool { return x == ssa.Value(prm) }) {
+							continue
+						}
+						callers := c.staticCallers(f)
+						k, allOK := 0, true
+						for _, ss := range callers {
+							for _, s := range ss {
+								k++
+								if !fromHash(s.Common().Args[pi]) {
+									allOK = false
+								}
+							}
+						}
+						if k > 0 && allOK {
+							ok2 = true
+							sites = k
+						}
+					}
+				}
+				n += sites
 				c.R.Check("F-rand", "seed|"+fname(root), ok2, c.posOf(call), "the generator's seed must derive from a block hash")
 			}
 		}
